@@ -49,6 +49,9 @@ type vop struct {
 	Bad  bool                   `json:"bad,omitempty"`
 	Msg  interface{}            `json:"msg,omitempty"`
 	Up   bool                   `json:"up,omitempty"`
+	// Cancelled: the request's context is already cancelled when the service is called (add / rem: no script runs, the
+	// store does not look at the context, so the operation takes place as usual - and entirely, or not at all)
+	Cancelled bool `json:"cancelled_ctx,omitempty"`
 }
 
 func (o *vop) coq() string {
@@ -277,6 +280,15 @@ func (v *vsvc) stored() map[string]vrec {
 	return acc
 }
 
+func (v *vsvc) ctxFor(o *vop) context.Context {
+	if !o.Cancelled {
+		return v.ctx
+	}
+	ctx, cancel := context.WithCancel(v.ctx)
+	cancel()
+	return ctx
+}
+
 // do executes one operation and renders the response as a Gallina term plus a
 // short class for the statistics.
 func (v *vsvc) do(o *vop) (term string, class string) {
@@ -298,7 +310,7 @@ func (v *vsvc) do(o *vop) (term string, class string) {
 			}
 			bs["inf"] = math.Inf(1) // encoding/json refuses it
 		}
-		err := v.s.AddMachine(v.ctx, o.Spec, o.Id, o.Node, bs)
+		err := v.s.AddMachine(v.ctxFor(o), o.Spec, o.Id, o.Node, bs)
 		switch {
 		case err == nil:
 			return "POk", "add-ok"
@@ -308,7 +320,7 @@ func (v *vsvc) do(o *vop) (term string, class string) {
 			return "PErr", "add-err"
 		}
 	case "rem":
-		if err := v.s.RemMachine(v.ctx, o.Id); err != nil {
+		if err := v.s.RemMachine(v.ctxFor(o), o.Id); err != nil {
 			return "PErr", "rem-err"
 		}
 		return "POk", "rem-ok"
@@ -391,8 +403,13 @@ func vGenAdd(g *vgen, ids []string) *vop {
 		o.Bs = map[string]interface{}{"k": 1.5, "cfg": map[string]interface{}{"a": true}}
 	case 2:
 		o.Bs = map[string]interface{}{}
+	case 3:
+		// a machine waiting for one particular message: the binding is there now and gone from the state it reaches
+		// (memory and store must both lose it)
+		o.Bs = map[string]interface{}{"?id": "again", "k": 2.0}
 	}
 	o.Bad = g.chance(0.08)
+	o.Cancelled = g.chance(0.25)
 	return o
 }
 
@@ -419,6 +436,9 @@ func vGenMsg(g *vgen, mg *vmsgGen, ids, present []string) interface{} {
 		return map[string]interface{}{"id": mg.id(), "to": target()} // no "fwd": nobody moves
 	}
 	m := map[string]interface{}{"id": mg.id(), "fwd": []interface{}{}}
+	if g.chance(0.15) {
+		m["id"] = "again"
+	}
 	switch y := g.intn(10); {
 	case y < 6:
 		m["to"] = target()
@@ -437,7 +457,7 @@ func vGenOp(g *vgen, mg *vmsgGen, ids, present []string) *vop {
 		return vGenAdd(g, ids)
 	case x < 6:
 		if len(present) > 0 && g.chance(0.7) {
-			return &vop{Kind: "rem", Id: g.pick(present)}
+			return &vop{Kind: "rem", Id: g.pick(present), Cancelled: g.chance(0.25)}
 		}
 		return &vop{Kind: "rem", Id: g.pick(ids)}
 	case x < 18:
